@@ -28,6 +28,82 @@ def proj(st):
     return d
 
 
+# ---- thread-structured lock-grain replay (spec/Aggregator/AggregatorConc.tla, harness/aggregator_conc_replay.cpp) ----
+CONC_ACTIONS = ["Access", "Wake", "PopCS", "PopAfter", "Resolve", "PushCS", "PushResolve", "PushDone",
+                "Destroy", "DrainCS", "DrainAfter", "DrainWake"]
+CONC_PEND = {"idle": "pre:mark",
+             "push_lock": "pre:lock", "pop_lock": "pre:lock", "drain_lock": "pre:lock",
+             "push_resolve": "post:unlock", "push_done": "post:unlock", "pop_after": "post:unlock", "drain_after": "post:unlock"}
+
+
+def conc_proj(st):
+    """projection of an AggregatorConc state: the consumer-visible history and the guarded state like the sequential
+    projection, plus every thread's pending operation at lock grain"""
+    d = {k: st[k] for k in ("alive", "cscript", "queue", "waiter")}
+    d["ast"] = "pop" if st["ast"] == "run" else st["ast"]     # an access is outstanding: the body runs or sleeps in pop
+    for k in ("sloc", "spar", "sscr", "sseq", "sst"):
+        d[k] = per_source(st[k])
+    tpc = st["tpc"]
+    if isinstance(tpc, list):       # TLC prints a function over 1..n as a tuple; 0..NS never is, but be safe
+        tpc = {str(i): v for i, v in enumerate(tpc)}
+    obs = [dict(o) for o in st["obs"]]
+    if tpc["0"] == "wait" and obs:
+        # a blocking access has not returned yet: whatever was handed over, the consumer has not looked at it
+        obs[-1] = {"r": "pending", "s": 0, "v": 0}
+    d["obs"] = obs
+    pend = {}
+    for t, pc in tpc.items():
+        name = "c" if t == "0" else "s" + t
+        if pc == "wait":
+            pend[name] = "wait:ready" if st["out"] == "none" else "wait:blocked"
+        elif pc == "drain_wait":
+            pend[name] = "wait:ready" if st["pf"] == "ready" else "wait:blocked"
+        else:
+            pend[name] = CONC_PEND[pc]
+    d["pend"] = pend
+    return d
+
+
+def conc_replay(ctx):
+    """Asynchronous sources completing CONCURRENTLY on their own threads, consumer on its own thread, at the grain of
+    the internal queue's critical sections: TLC checks the C14 invariants (Aggregator.tla's, through INSTANCE) plus
+    lock discipline / conservation / no stuck state / termination over ALL interleavings; the dumped graph is
+    replayed on real threads under the controlled scheduler with the queue's mutex virtual."""
+    rpc = vlib.compile_harness(vlib.VERIF + "/harness/aggregator_conc_replay.cpp", "aggregator_conc_replay",
+                               extra_flags=["-rdynamic"], sanitize=not ctx.quick)
+    q = ctx.quick
+    styles = [("sync", "co"), ("iter", "fut"), ("sync", "fut"), ("iter", "co")]
+    yr = '{"yield", "return"}'
+    # (tag, constants, max_paths in quick)
+    if q:
+        jobs = [("conc2", {"NS": 2, "MaxSteps": 2, "MaxAcc": 3}, 2500),
+                ("conc3", {"NS": 3, "MaxSteps": 2, "MaxAcc": 2, "SrcKinds": yr,
+                           "Classes": '{"b"}' if ctx.seed % 2 else '{"n"}'}, 1500)]
+    else:
+        jobs = [("conc2", {"NS": 2, "MaxSteps": 3, "MaxAcc": 4, "MaxAfterEnd": 1}, None),
+                ("conc3", {"NS": 3, "MaxSteps": 2, "MaxAcc": 2, "SrcKinds": yr}, None)]
+    for tag, consts, cap in jobs:
+        ns = consts["NS"]
+
+        def hdr(k, st0, ns=ns):
+            b, n = styles[k % len(styles)]
+            return {"ns": ns, "bstyle": b, "nstyle": n}
+        graph_replay(ctx, "Aggregator", "AggregatorConc", "AggregatorConc.cfg", tag, rpc, conc_proj, header_fn=hdr,
+                     must_take=CONC_ACTIONS, max_paths=cap, constants={k: str(v) for k, v in consts.items()},
+                     tlc_kw={"workers": 4})
+    if not q:
+        # three sources with the full alphabet and one more access: the specification alone (all invariants, termination)
+        path = os.path.join(vlib.BUILD, "%s_conc3full.cfg" % ctx.prop)
+        vlib.write_cfg(path, open(os.path.join(vlib.VERIF, "spec/Aggregator/AggregatorConc.cfg")).read(),
+                       {"NS": "3", "MaxSteps": "2", "MaxAcc": "3"})
+        res = ctx.tlc("Aggregator", "AggregatorConc", path, "conc3full", workers=8, timeout=3600)
+        if res.violation:
+            ctx.tlc_violation(res, "AggregatorConc:conc3full")
+    ctx.assume("threaded replay at lock grain: every step of an asynchronous source completes on the source's own thread, the "
+               "consumer has its own thread; scheduling points are the internal queue's lock / unlock, the blocking waits and the "
+               "idle loops -- atomic operations are not scheduling points (the promise/future and awaiter protocols are C01/C02/C03)")
+
+
 SEQ_MODES = ["native/sync/fc", "coro/iter/cf", "native_raw/iter/cf", "coro/sync/fc"]
 THR_MODES = ["thr_late/sync/fc", "thr_early/iter/cf", "thr_early/sync/cf", "thr_late/iter/fc"]
 ARGK = '{"ynull", "yield", "apend", "throw", "return"}'
@@ -92,6 +168,7 @@ def run(ctx):
             res = ctx.tlc("Aggregator", "Aggregator", path, "sim%d" % ns, workers=4, simulate="num=30000", depth=200)
             if res.violation:
                 ctx.tlc_violation(res, "Aggregator:sim%d" % ns)
+    conc_replay(ctx)
     ctx.assume("values are (source, sequence number) pairs encoded as 100*s+j; access i passes 100+i; operation k completes with k")
     ctx.assume("controller::_count lives in the aggregate's coroutine frame and is not observable from outside: it is bound through "
                "behaviour (end reported / access hanging / drain blocking) and the observable queue content, not by direct comparison")
